@@ -1,6 +1,6 @@
 """C08 — difference is set difference (DESIGN §5 C08)."""
 from .. import intervals
-from ..interp import Adt, Inconclusive, Interp, Policy
+from ..interp import Adt, Cell, Inconclusive, Interp, Policy, Ptr
 from .common import interval_table, set_table
 
 
@@ -18,16 +18,56 @@ def t_flip(rep, prog, env):
     rep.rule("T-FLIP", 3, "Predicate::flip swaps Including/Excluding and keeps the version")
     from ..intervals import PRED, vtok
     for pk, exp in (("I", "E"), ("E", "I"), ("U", "U")):
-        it = Interp(prog, Policy())
+        from ..intervals import LEVEL1
+        it = Interp(prog, Policy(), overrides=dict(LEVEL1))
         t = vtok("v", 0)
         p = Adt(PRED, env.P[pk], () if pk == "U" else (t,))
+        key = "range::Predicate::flip"
+        if not prog.has_body(key):
+            rep.inconc("T-FLIP: range::Predicate::flip not found")
+            return
+        by_ref = prog.ty_str(prog.body(key)["locals"][1]).startswith("&")
         try:
-            r = it.call_body("range::Predicate::flip", [p])
+            r = it.call_body(key, [Ptr(Cell(p)) if by_ref else p])
         except Inconclusive as e:
             rep.inconc("T-FLIP: " + e.reason, e.where)
             continue
-        good = isinstance(r, Adt) and r.name == PRED and env.Pinv[r.variant] == exp and (exp == "U" or r.fields[0] is t)
+        r = it.strip(r)
+        good = isinstance(r, Adt) and r.name == PRED and env.Pinv[r.variant] == exp and \
+            (exp == "U" or getattr(it.strip(r.fields[0]), "name", None) == t.name)
         if good:
             rep.ok("T-FLIP")
         else:
             rep.fail("T-FLIP", "range::Predicate::flip|T-FLIP|%s" % pk, "flip(%s) returned %r" % (pk, r))
+    if any(x.get("what", "").startswith("T-FLIP") for x in rep.inconclusive):
+        flip_witness(rep, prog, env)
+
+
+def flip_witness(rep, prog, env):
+    """flip looks into the version (the opaque token does not apply): concrete structured versions, including `X.Y.Z-0`.
+    A mismatch is genuine; none found leaves the rule inconclusive."""
+    from .. import minver
+    from ..intervals import PRED
+    rule = "T-FLIP-WITNESS"
+    rep.rule(rule, 0, "witness search for Predicate::flip on structured versions")
+    key = "range::Predicate::flip"
+    by_ref = prog.ty_str(prog.body(key)["locals"][1]).startswith("&")
+    for v in minver.bound_universe(False):
+        for pk, exp in (("I", "E"), ("E", "I")):
+            pol = minver.MinPolicy()
+            pol.witness = True
+            it = Interp(prog, pol, overrides={})
+            p = Adt(PRED, env.P[pk], (minver.mk_version(prog, "v", v),))
+            try:
+                r = it.strip(it.call_body(key, [Ptr(Cell(p)) if by_ref else p]))
+                got = minver.concretise(prog, it, r.fields[0]) if isinstance(r, Adt) and r.fields else None
+            except Inconclusive:
+                continue
+            if isinstance(r, Adt) and r.name == PRED and env.Pinv[r.variant] == exp and got == v:
+                rep.ok(rule)
+            else:
+                rep.fail(rule, "range::Predicate::flip|%s|%s" % (rule, "version changed" if got != v else "kind"),
+                         "flip(%s %s) gives %s %s" % ({"I": "Including", "E": "Excluding"}[pk], minver.vstr(v),
+                                                      env.Pinv.get(getattr(r, "variant", -1)), minver.vstr(got) if got else r),
+                         example="(>=1.0.0) minus (1.x) must start at >=2.0.0-0")
+                return
